@@ -7,7 +7,7 @@
             GO
             P <key>                      (optional priority list for perm mode 4, most urgent first)
    perm modes: 0 identity, 1 reverse, 2 sorted, 3 reverse sorted, 4 keys of the P list first (in P order), the rest after
-               in their original order (used to replay the set iteration order observed on the implementation)
+               in their original order; 5 the model's sort_keys = name order of get_nested_namespaces since fix 9b93945 (used to replay the set iteration order observed on the implementation)
    output:  ROOT, FOLD (the Coq trigger predicate ns_fold), NODE, NTY, ALL, DT, NSP, FIND, INC lines (see below), terminated by END *)
 open Model
 
@@ -32,6 +32,7 @@ let order prio mode l =
   | 1 -> List.rev l
   | 2 -> List.sort compare l
   | 3 -> List.rev (List.sort compare l)
+  | 5 -> sort_keys l      (* the extracted order of Namespace.get_nested_namespaces (current code) *)
   | _ -> List.filter (fun k -> List.mem k l) prio @ List.filter (fun k -> not (List.mem k prio)) l
 
 let run es ext stem outdir pm cm qf table prio types =
@@ -46,6 +47,8 @@ let run es ext stem outdir pm cm qf table prio types =
         (match n.n_parent with Some p -> show_key p | None -> "-")
         (if n.n_children = [] then "-" else String.concat ";" (List.map show_key n.n_children))
         (show_key (ns_path strop ext stem outdir k));
+      Printf.printf "KIDS %s %s\n" (show_key k)
+        (if n.n_children = [] then "-" else String.concat ";" (List.map show_key (cperm n.n_children)));
       List.iter (fun (t, p) -> Printf.printf "NTY %s %s %s\n" (show_key k) (show_ty t) (show_key p)) n.n_types) s;
   List.iter (function
       | INs (k, p) -> Printf.printf "ALL N %s %s\n" (show_key k) (show_key p)
